@@ -19,6 +19,7 @@ use sliding_features::View;
 pub struct C08;
 
 const BIG: f64 = 1.0995116e12; // 2^40: beyond this a node's output is no longer "moderate" input
+const TINY: f64 = 9.094947e-13; // 2^-40: non-zero magnitudes below this neither (ratios overflow)
 
 /// wrap every node of `s` in a Tap; ids in pre-order
 fn tapped(s: &Spec, next: &mut usize) -> Spec {
@@ -138,7 +139,7 @@ fn domain_until<T: Scalar>(log: &TapLog<T>, need_pos: bool, need_nonzero: bool) 
     for (i, (_, l)) in log.iter().enumerate() {
         if let Some(v) = l {
             let f = v.f();
-            if !v.is_finite() || f.abs() > BIG || (need_pos && f <= 0.0) || (need_nonzero && f == 0.0) {
+            if !v.is_finite() || f.abs() > BIG || (f != 0.0 && f.abs() < TINY) || (need_pos && f <= 0.0) || (need_nonzero && f == 0.0) {
                 return i;
             }
         }
@@ -454,7 +455,7 @@ impl Monitor for C08 {
         names
     }
     fn rule(&self) -> String {
-        "trial = a view (every kind x N grid x degenerate and benign input classes), PFE/EFT with each MA, or a random 2-3 level chain / combinator with a Tap on every node; per node: once Some never None again, every Some finite, as long as the node's own inputs (its child's outputs) stayed finite, in domain and below 2^40; single views: step of first Some against the documented warm-up table (also with streams shorter than the warm-up); wrappers over a Script that answers None for 1..40 updates must keep their construction-time answer; long runs of 1e4 (quick) / 1e6 (thorough) updates. f64 (release and dev), f32, exact rational. distinct = distinct (tree, input hash, scalar)".into()
+        "trial = a view (every kind x N grid x degenerate and benign input classes), PFE/EFT with each MA, or a random 2-3 level chain / combinator with a Tap on every node; per node: once Some never None again, every Some finite, as long as the node's own inputs (its child's outputs) stayed finite, in domain and of moderate magnitude (zero or within 2^-40..2^40); single views: step of first Some against the documented warm-up table (also with streams shorter than the warm-up); wrappers over a Script that answers None for 1..40 updates must keep their construction-time answer; long runs of 1e4 (quick) / 1e6 (thorough) updates. f64 (release and dev), f32, exact rational. distinct = distinct (tree, input hash, scalar)".into()
     }
     fn assumptions(&self) -> Vec<String> {
         vec![
